@@ -83,3 +83,28 @@ let () =
           let (l, s, _) = List.nth evs k in
           mismatch l s (Printf.sprintf "slice batch %s: event %d is not enabled in the model (or observed a value the model does not predict)" !tag k)));
     bbuf := [])
+
+(* ---------------- lifecycle (coq/Lifecycle.v) ---------------- *)
+let lstate : M.lstate option ref = ref None
+
+let res_name = function M.RNil -> "nil" | M.RErrRunning -> "ErrRunningWorker" | M.RErrNotRunning -> "ErrNotRunningWorker" | M.RErrSame -> "ErrSameConcurrency"
+let st_name = function M.Initiated -> "Initiated" | M.Running -> "Running" | M.Paused -> "Paused" | M.Stopped -> "Stopped"
+
+let () =
+  register "LIFE" (fun _ _ a -> match a with
+    | [t; conc; ncpu; ctx] -> tag := t; lstate := Some (M.linit (nat conc) (nat ncpu) (b ctx))
+    | _ -> failwith "LIFE args");
+  register "l" (fun ln line a -> match a, !lstate with
+    | [op; arg; err; status], Some s ->
+        let c = match op with
+          | "Bind" -> M.CBind | "Pause" -> M.CPause | "PauseAndWait" -> M.CPauseAndWait | "Resume" -> M.CResume
+          | "Stop" -> M.CStop | "WaitAndStop" -> M.CWaitAndStop | "Restart" -> M.CRestart
+          | "TunePool" -> let n = int_of_string arg in M.CTunePool (nat_of_int (max n 0), n < 1)
+          | "CtxCancel" -> M.CCtxCancel
+          | _ -> failwith ("lifecycle op " ^ op) in
+        let (s', r) = M.lstep s c in
+        lstate := Some s'; incr checked;
+        if res_name r <> err || st_name s'.M.wst <> status then
+          mismatch ln line (Printf.sprintf "slice life %s: model gives %s/%s" !tag (res_name r) (st_name s'.M.wst))
+    | _ -> failwith "l args");
+  register "ENDLIFE" (fun _ _ _ -> lstate := None)
